@@ -9,7 +9,7 @@
 //	hook     the WithAfterTempWriteHook point: the directory is observed inside the hook, then
 //	         the hook returns nil / returns an error / panics / the Save happens in a child that
 //	         kills itself inside the hook; the directory is observed again, then Load;
-//	corrupt  every single-byte substitution (quick: 8 bit flips + 10 byte values per position,
+//	corrupt  every single-byte substitution (quick: 8 bit flips + 5 byte values per position,
 //	         thorough: all 255), every truncation, every single-byte deletion and a few insertions
 //	         of a saved file: Load must reject it or return exactly the saved state;
 //	tamper   a field of the decoded document is changed and the document re-marshalled with the
@@ -167,7 +167,7 @@ func genSpec(r *rand.Rand, rev uint64) stateSpec {
 func gen(r *rand.Rand, tier string, i int) input {
 	var in input
 	switch k := r.IntN(20); {
-	case k < 9:
+	case k < 10:
 		in.Kind = "kill"
 		n := 2 + r.IntN(5)
 		for j := 0; j < n; j++ {
@@ -175,7 +175,7 @@ func gen(r *rand.Rand, tier string, i int) input {
 		}
 		in.Wait = r.IntN(n * 3)
 		in.Delay = vh.Pick(r, 0, r.IntN(200), r.IntN(2000), r.IntN(8000))
-	case k < 15:
+	case k < 16:
 		in.Kind = "hook"
 		in.Ops = []stateSpec{genSpec(r, 1), genSpec(r, 2)}
 		if vh.Chance(r, 0.2) {
@@ -186,10 +186,18 @@ func gen(r *rand.Rand, tier string, i int) input {
 		in.Kind = "corrupt"
 		sp := genSpec(r, uint64(1+r.IntN(1000000)))
 		if tier != "thorough" {
-			sp.Backup = vh.Pick(r, 0, 1) // keep the file small: the sweep is quadratic in the file size
+			// keep the file small: the sweep is quadratic in the file size
+			sp.Backup = vh.Pick(r, 0, 1)
+			sp.Nodes, sp.Slots, sp.Health = 1+r.IntN(3), r.IntN(3), r.IntN(2)
 			in.Full = false
 		} else {
-			in.Full = vh.Chance(r, 0.3) && sp.Backup < 2
+			if sp.Backup > 1 {
+				sp.Backup = 1 // a 15 KiB file times 13 variants per byte is minutes of decoding
+			}
+			if vh.Chance(r, 0.3) { // all 255 values per position, on a small file
+				in.Full = true
+				sp.Nodes, sp.Slots, sp.Health, sp.Backup = 1+r.IntN(2), r.IntN(2), 0, 0
+			}
 		}
 		in.Ops = []stateSpec{sp}
 	default:
@@ -357,7 +365,7 @@ func runKill(in input) vh.Result {
 	cmd := spawn(dir, in, "loop")
 	deadline := time.Now().Add(5 * time.Second)
 	for progress(dir) < in.Wait && time.Now().Before(deadline) {
-		time.Sleep(50 * time.Microsecond)
+		time.Sleep(200 * time.Microsecond)
 	}
 	time.Sleep(time.Duration(in.Delay) * time.Microsecond)
 	_ = cmd.Process.Kill()
@@ -519,7 +527,7 @@ func runCorrupt(in input) vh.Result {
 	origOK := err == nil && string(file) == string(enc[0]) && reflect.DeepEqual(back, orig)
 	var sw sweep
 	buf := make([]byte, len(file))
-	values := []byte{0x00, 0xff, ' ', '0', '1', '9', '"', ',', '}', 'a'}
+	values := []byte{0x00, ' ', '0', '"', '}'}
 	for i := range file {
 		copy(buf, file)
 		if in.Full {
